@@ -212,6 +212,8 @@ theorem tabInv_step (H : IdFn) {N : Numbering} {g : Graph} {ds : DS} (hi : TabIn
       by_cases hkk : k = N.pk nid
       · exact ⟨nid, hkk⟩
       · simp only [hkk, if_false] at hk; exact hi.polsRange k hk
+  | passthru c key v =>
+    exact tabInv_ds (tabInv_rel hi (resRel_emit g _ (by intro x hx; simp at hx; subst hx; cases v <;> rfl))) rfl rfl
   | other => exact hi
 
 theorem tabInv_inSync {N : Numbering} {g : Graph} {ds : DS} (hi : TabInv N g ds) : TabInv N g.inSync ds := by
